@@ -8,6 +8,19 @@
 //! Oracle (b), runtime half: every virtual key is a macro typing a unique witness key; counts, mode
 //! exit, suppression and backspace arithmetic are read from the OS stream (plus the public
 //! `sequence_state.is_active()` at quiescent points for the modes where the stream cannot tell).
+//!
+//! Two table families. The general family (plain keys, chorded members, `O-(..)` groups) is typed
+//! canonically. The modifier family lists bare modifier keys as ordinary members (`(lsft a b)`, the
+//! guide's example for `sequence-backtrack-modcancel`) next to chorded members and is typed in
+//! several ways: the bare modifier tapped, kept down over the following keys or to the end, a
+//! chord's modifier released late (over the next member), and with
+//! an unrelated modifier (pressed before the leader) still down while the first key / the first
+//! keys / everything is typed; under `sequence-backtrack-modcancel` absent (= yes), `yes` and `no`.
+//! What must happen is decided by the documented rule: each press is seen with the modifiers down
+//! at that moment; with `yes` a press that does not match as seen is tried again without
+//! modifiers, with `no` it is not (so `(lsft a b)` can never fire). Typings for which that rule
+//! leaves a choice (another sequence also matches the presses, a part of them, or begins with them;
+//! the outcome would depend on the order alternatives are tried in) are counted and not judged.
 
 #[path = "c12_model.rs"]
 mod model;
@@ -213,7 +226,13 @@ impl Sched {
 
 /// Build the event history for typing `ord` (one ordering of one sequence).
 fn build(ord: &[El], kind: Kind, leader: Leader, timeout: u64, hold_through: bool, rng: &mut Rng) -> Scenario {
-    let sc = build_inner(ord, kind.clone(), leader, timeout, hold_through, rng, false);
+    build_steps(&user_steps(ord, hold_through), None, kind, leader, timeout, hold_through, rng)
+}
+
+/// `steps`: what the user does after the leader; `pre`: a key pressed before the leader (released by
+/// one of the steps)
+fn build_steps(steps: &[(bool, String)], pre: Option<&str>, kind: Kind, leader: Leader, timeout: u64, hold_through: bool, rng: &mut Rng) -> Scenario {
+    let sc = build_inner(steps, pre, kind.clone(), leader, timeout, hold_through, rng, false);
     // "within the timeout": every press must be consumed < T after the previous one (or the leader);
     // events injected with zero gap are consumed one per tick, so consumption times are used, with
     // one tick of slack
@@ -224,7 +243,7 @@ fn build(ord: &[El], kind: Kind, leader: Leader, timeout: u64, hold_through: boo
     if ok {
         sc
     } else {
-        build_inner(ord, kind, leader, timeout, hold_through, rng, true)
+        build_inner(steps, pre, kind, leader, timeout, hold_through, rng, true)
     }
 }
 
@@ -240,12 +259,14 @@ fn max_press_gap(sc: &Scenario, leader: Leader) -> u64 {
     m
 }
 
-fn build_inner(ord: &[El], kind: Kind, leader: Leader, timeout: u64, hold_through: bool, rng: &mut Rng, tight: bool) -> Scenario {
-    let steps = user_steps(ord, hold_through);
+fn build_inner(steps: &[(bool, String)], pre: Option<&str>, kind: Kind, leader: Leader, timeout: u64, hold_through: bool, rng: &mut Rng, tight: bool) -> Scenario {
     let n_presses = steps.iter().filter(|s| s.0).count();
     let mut sc = Sched { t: 0, proc: 0, evs: vec![] };
     let lk = osc(LEADER_KEY);
     let mut leader_arrival = 3u64;
+    if let Some(k) = pre {
+        sc.at(1, Ev::P(osc(k)));
+    }
     if leader != Leader::AlwaysOn {
         sc.at(3, Ev::P(lk));
         sc.after(1, Ev::R(lk));
@@ -266,7 +287,7 @@ fn build_inner(ord: &[El], kind: Kind, leader: Leader, timeout: u64, hold_throug
     };
     let mut presses: Vec<(u64, String)> = vec![];
     let mut press_proc: Vec<u64> = vec![];
-    let mut held: Vec<String> = vec![];
+    let mut held: Vec<String> = pre.iter().map(|k| k.to_string()).collect();
     let mut last_press_arrival = leader_arrival;
     let exact = tight || !matches!(kind, Kind::Complete);
     let mut np = 0usize;
@@ -338,7 +359,15 @@ struct Judge<'a> {
     mode: Mode,
     leader: Leader,
     timeout: u64,
+    /// structural class of the typing in the modifier family ("" in the plain / overlap family); appended to the signature
+    fam: &'static str,
 }
+
+/// keys whose presses the matcher reports as their left-hand twin
+fn is_right_hand_twin(n: &str) -> bool {
+    matches!(n, "RShift" | "RCtrl" | "RGui")
+}
+const RIGHT_HAND: &str = "C12:bare-right-hand-modifier-member-never-matches";
 
 impl<'a> Judge<'a> {
     fn witness(&self, si: usize, ord: &[El], sc: &Scenario, obs: &Obs, extra: Value) -> Value {
@@ -528,7 +557,16 @@ impl<'a> Judge<'a> {
                 v.push(("C12:mode-active-at-end".into(), format!("sequence mode active after the probe key ({ctx})"), json!({"sequence_active": false})));
             }
         }
+        // known finding: a sequence that lists rsft / rctl / rmet as a member stops matching at that key
+        let right_hand_typed = self.table.has_right_hand_bare(si) && typed_names.iter().any(|n| is_right_hand_twin(n));
         for (sig, what, exp) in v {
+            let sig = if right_hand_typed {
+                format!("{RIGHT_HAND}:{}", sig.trim_start_matches("C12:"))
+            } else if self.fam.is_empty() {
+                sig
+            } else {
+                format!("{sig}:{}", self.fam)
+            };
             let w = self.witness(si, ord, sc, obs, exp);
             self.out.violate(sig, what, w);
         }
@@ -542,23 +580,232 @@ fn is_mod_name(n: &str) -> bool {
 // ---------------------------------------------------------------- cases
 
 const N_FIXED: u64 = 38;
+/// fixed tables of the modifier family (bare modifier keys as members, unrelated modifier held)
+const N_MF_FIXED: u64 = 13;
+/// every MF_EVERY-th generated case is a modifier-family case
+const MF_EVERY: u64 = 6;
 
 fn parse_accepts(cfg: &str) -> Result<(), String> {
     kanata_parser::cfg::new_from_str(cfg, Default::default()).map(|_| ()).map_err(|e| format!("{e}"))
 }
 
-fn case_tables(ctx: &Ctx, idx: u64) -> (Vec<Table>, Rng) {
+#[derive(Clone, Copy, PartialEq, Eq, Debug)]
+enum Family {
+    /// plain keys, chorded members, O-(..) groups
+    General,
+    /// bare modifier keys as members, chorded members; typed with modifiers tapped / held / lingering
+    Modifier,
+}
+
+fn case_family(idx: u64) -> (Family, bool) {
     if idx < N_FIXED {
-        let fixed = fixed_tables();
-        let t = fixed[(idx as usize) % fixed.len()].clone();
-        // fixed block: identical for every seed
-        (vec![t], Rng::for_case(0x5eed, "C12", "fixed", idx))
+        (Family::General, true)
+    } else if idx < N_FIXED + N_MF_FIXED {
+        (Family::Modifier, true)
+    } else if (idx - N_FIXED - N_MF_FIXED) % MF_EVERY == MF_EVERY - 1 {
+        (Family::Modifier, false)
     } else {
-        let mut rng = Rng::for_case(ctx.seed, "C12", "case", idx);
-        let n = 12;
-        let big = ctx.tier == crate::core::Tier::Thorough;
-        let ts = (0..n).map(|_| gen_table(&mut rng, big)).collect();
-        (ts, rng)
+        (Family::General, false)
+    }
+}
+
+fn case_tables(ctx: &Ctx, idx: u64) -> (Vec<Table>, Rng) {
+    match case_family(idx) {
+        (Family::General, true) => {
+            let fixed = fixed_tables();
+            let t = fixed[(idx as usize) % fixed.len()].clone();
+            // fixed block: identical for every seed
+            (vec![t], Rng::for_case(0x5eed, "C12", "fixed", idx))
+        }
+        (Family::Modifier, true) => {
+            let fixed = mf_fixed_tables();
+            let t = fixed[((idx - N_FIXED) as usize) % fixed.len()].clone();
+            (vec![t], Rng::for_case(0x5eed, "C12", "mf-fixed", idx))
+        }
+        (Family::General, false) => {
+            let mut rng = Rng::for_case(ctx.seed, "C12", "case", idx);
+            let n = 12;
+            let big = ctx.tier == crate::core::Tier::Thorough;
+            let ts = (0..n).map(|_| gen_table(&mut rng, big)).collect();
+            (ts, rng)
+        }
+        (Family::Modifier, false) => {
+            let mut rng = Rng::for_case(ctx.seed, "C12", "mf-case", idx);
+            let ts = (0..8).map(|_| gen_mf_table(&mut rng)).collect();
+            (ts, rng)
+        }
+    }
+}
+
+#[derive(Clone, Copy, PartialEq, Eq, Debug)]
+enum Mc {
+    /// option absent (documented default: yes)
+    Default,
+    Yes,
+    No,
+}
+impl Mc {
+    fn on(self) -> bool {
+        self != Mc::No
+    }
+    fn name(self) -> &'static str {
+        if self.on() {
+            "modcancel-yes"
+        } else {
+            "modcancel-no"
+        }
+    }
+}
+
+fn mf_config_text(table: &Table, mode: Mode, leader: Leader, t: u64, mc: Mc) -> String {
+    let s = config_head(table, mode, leader, t);
+    match mc {
+        Mc::Default => s,
+        Mc::Yes => s.replacen("(defcfg ", "(defcfg sequence-backtrack-modcancel yes ", 1),
+        Mc::No => s.replacen("(defcfg ", "(defcfg sequence-backtrack-modcancel no ", 1),
+    }
+}
+
+/// structural class of one typing of one sequence of a modifier-family table
+fn mf_class(els: &[El], plan: &Plan, ty: &Typing) -> &'static str {
+    let any_bare = els.iter().any(|e| matches!(e, El::Bare(_)));
+    if plan.linger.is_some() {
+        "unrelated-modifier-held-on-first-key"
+    } else if ty.any_chord_mod_late {
+        "chord-modifier-released-late"
+    } else if matches!(els.first(), Some(El::Bare(_))) {
+        if ty.any_bare_held {
+            "bare-modifier-first-held"
+        } else {
+            "bare-modifier-first-tapped"
+        }
+    } else if any_bare {
+        if ty.any_bare_held {
+            "bare-modifier-later-held"
+        } else {
+            "bare-modifier-later-tapped"
+        }
+    } else if els.iter().any(|e| matches!(e, El::Mod { .. })) {
+        "chorded-members"
+    } else {
+        "plain-keys"
+    }
+}
+
+/// (b) for the modifier family: the table typed under `combos` x `mcs`
+fn run_modifier_family(ctx: &Ctx, out: &mut CaseOut, table: &Table, configs: &[(Mode, Leader, Mc)], fixed: bool, rng: &mut Rng) {
+    {
+        for (mode, leader, mc) in configs.iter().copied() {
+            let timeout = *rng.pick(&[12u64, 25]);
+            let cfg = mf_config_text(table, mode, leader, timeout, mc);
+            if ctx.verbose {
+                eprintln!("--- {} / {} / T={timeout} / {mc:?}\n{cfg}", mode.name(), leader.name());
+            }
+            out.tag(format!("mf-typed:{}:{}:{}:{}", mode.name(), leader.name(), mc.name(), table.shape()));
+            out.inc(match mc {
+                Mc::Default => "mf_configs_modcancel_default",
+                Mc::Yes => "mf_configs_modcancel_yes",
+                Mc::No => "mf_configs_modcancel_no",
+            });
+            for si in 0..table.seqs.len() {
+                let els = &table.seqs[si].els;
+                let plans = mf_plans(table, si, rng);
+                for (pi, plan) in plans.iter().enumerate() {
+                    let ty = plan_typing(els, plan);
+                    let class = mf_class(els, plan, &ty);
+                    out.inc("mf_typings");
+                    if leader == Leader::AlwaysOn {
+                        if let Some(k) = ty.pre.as_deref() {
+                            // always-on: the key pressed "before" is itself the first key of a sequence
+                            if table.some_seq_begins_with_key(k) {
+                                out.inc("mf_skipped:always_on_held_key_begins_a_sequence");
+                                continue;
+                            }
+                        }
+                    }
+                    let verdict = table.verdict(si, &ty, mc.on());
+                    let n_presses = ty.steps.iter().filter(|s| s.0).count();
+                    let mut scs: Vec<Scenario> = vec![];
+                    match verdict {
+                        Verdict::Skip(why) => {
+                            out.inc(&format!("mf_skipped:{why}"));
+                            continue;
+                        }
+                        Verdict::Unmatchable => {
+                            scs.push(build_steps(&ty.steps, ty.pre.as_deref(), Kind::Complete, leader, timeout, false, rng));
+                        }
+                        Verdict::Fires => {
+                            scs.push(build_steps(&ty.steps, ty.pre.as_deref(), Kind::Complete, leader, timeout, false, rng));
+                            let min_cut = if leader == Leader::AlwaysOn { 1 } else { 0 };
+                            if pi < 2 || fixed {
+                                for cut in min_cut..n_presses {
+                                    scs.push(build_steps(&ty.steps, ty.pre.as_deref(), Kind::PrefixForeign { cut }, leader, timeout, false, rng));
+                                }
+                            } else if n_presses > min_cut {
+                                let cut = min_cut + rng.usize(n_presses - min_cut);
+                                scs.push(build_steps(&ty.steps, ty.pre.as_deref(), Kind::PrefixForeign { cut }, leader, timeout, false, rng));
+                            }
+                            if pi < 2 {
+                                let cut = if leader == Leader::AlwaysOn { 1 + rng.usize(n_presses.max(2) - 1) } else { rng.usize(n_presses) };
+                                if cut < n_presses {
+                                    for gap in [timeout - 1, timeout, timeout + 1] {
+                                        scs.push(build_steps(&ty.steps, ty.pre.as_deref(), Kind::Timeout { cut, gap }, leader, timeout, false, rng));
+                                    }
+                                }
+                            }
+                        }
+                    }
+                    for sc in &scs {
+                        out.inc("scenarios");
+                        out.inc("mf_scenarios");
+                        let obs = match run(&cfg, sc) {
+                            Ok(o) => o,
+                            Err(e) => {
+                                out.inconclusive = Some(format!("config accepted by the parser but not by Kanata::new_from_str: {}", e.lines().next().unwrap_or("")));
+                                continue;
+                            }
+                        };
+                        if ctx.verbose {
+                            eprintln!("{} [{class}] {verdict:?} | {:?} | {}\n   -> {:?}", seq_text(els), sc.kind, render_hist(&sc.hist), obs.trace.iter().map(|o| o.short()).collect::<Vec<_>>());
+                        }
+                        let before = out.violations.len();
+                        if verdict == Verdict::Fires {
+                            let mut j = Judge { out: &mut *out, table, cfg: &cfg, mode, leader, timeout, fam: class };
+                            j.judge(si, els, sc, &obs, &[], &[]);
+                            if out.violations.len() == before {
+                                let completes = match &sc.kind {
+                                    Kind::Complete => true,
+                                    Kind::PrefixForeign { .. } => false,
+                                    Kind::Timeout { gap, .. } => *gap < timeout,
+                                };
+                                if completes {
+                                    out.inc(&format!("mf_fired_once:{class}:{}", mc.name()));
+                                } else {
+                                    out.inc(&format!("mf_failed_cleanly:{class}"));
+                                }
+                            }
+                        } else {
+                            // nothing that was typed matches anything: no virtual key
+                            let fired: Vec<usize> = (0..table.seqs.len()).map(|i| downs(&obs.trace, &tn(WIT[i])).len()).collect();
+                            if fired.iter().sum::<usize>() > 0 {
+                                let w = json!({
+                                    "config": cfg,
+                                    "sequence": table.seqs[si].text(),
+                                    "history": render_hist(&sc.hist),
+                                    "observed": obs.trace.iter().map(|o| o.short()).collect::<Vec<_>>(),
+                                    "expected": {"witness_presses_per_sequence": vec![0; fired.len()], "observed": fired, "why": "as seen by the matcher (each press with the modifiers down at that moment) the typed keys match no defined sequence under this sequence-backtrack-modcancel setting"},
+                                });
+                                let right_hand_typed = table.has_right_hand_bare(si) && sc.presses.iter().any(|p| is_right_hand_twin(&p.1));
+                                let sig = if right_hand_typed { format!("{RIGHT_HAND}:unmatchable-typing-fired-vkey") } else { format!("C12:unmatchable-typing-fired-vkey:{class}:{}", mc.name()) };
+                                out.violate(sig, format!("a virtual key was activated by keys that match no sequence with {} ({}/{})", mc.name(), mode.name(), leader.name()), w);
+                            } else {
+                                out.inc(&format!("mf_unmatchable_fired_nothing:{class}:{}", mc.name()));
+                            }
+                        }
+                    }
+                }
+            }
+        }
     }
 }
 
@@ -567,7 +814,7 @@ impl Check for C12Check {
         "C12"
     }
     fn n_cases(&self, ctx: &Ctx) -> u64 {
-        N_FIXED + ctx.tier.sel(5_000, 40_000)
+        N_FIXED + N_MF_FIXED + ctx.tier.sel(6_000, 48_000)
     }
     fn describe(&self, ctx: &Ctx, idx: u64) -> Value {
         let (ts, _) = case_tables(ctx, idx);
@@ -576,11 +823,15 @@ impl Check for C12Check {
     fn run_case(&self, ctx: &Ctx, idx: u64) -> CaseOut {
         let mut out = CaseOut::new();
         let (tables, mut rng) = case_tables(ctx, idx);
+        let (family, fixed) = case_family(idx);
         let mut runtime_table: Option<Table> = None;
         // ---- (a) parser half on every table
         for t in &tables {
             let cfg = config_text(t, Mode::HiddenSuppressed, Leader::Sldr, 20);
             out.inc("tables");
+            if family == Family::Modifier {
+                out.inc("mf_tables");
+            }
             let conflicts = t.conflicts();
             out.max("orderings_per_table", t.seqs.iter().map(|s| n_orderings(&s.els)).sum::<u64>());
             match parse_accepts(&cfg) {
@@ -621,7 +872,23 @@ impl Check for C12Check {
         // ---- (b) runtime half on the first accepted table
         let Some(table) = runtime_table else { return out };
         out.inc("tables_typed");
-        let fixed = idx < N_FIXED;
+        if family == Family::Modifier {
+            out.inc("mf_tables_typed");
+            if fixed {
+                let configs: Vec<(Mode, Leader, Mc)> = COMBOS.iter().flat_map(|(m, l)| [Mc::Default, Mc::Yes, Mc::No].into_iter().map(|mc| (*m, *l, mc))).collect();
+                run_modifier_family(ctx, &mut out, &table, &configs, true, &mut rng);
+            } else {
+                let a = rng.usize(COMBOS.len());
+                let b = (a + 1 + rng.usize(COMBOS.len() - 1)) % COMBOS.len();
+                let yes = if rng.coin() { Mc::Default } else { Mc::Yes };
+                let (a, b) = (COMBOS[a], COMBOS[b]);
+                run_modifier_family(ctx, &mut out, &table, &[(a.0, a.1, Mc::Default), (b.0, b.1, yes), (a.0, a.1, Mc::No)], false, &mut rng);
+            }
+            if idx % 300 == 5 || idx == N_FIXED {
+                out.sample = Some(json!({"idx": idx, "family": "modifier", "table": table.text()}));
+            }
+            return out;
+        }
         let combos: Vec<(Mode, Leader)> = if fixed {
             COMBOS.to_vec()
         } else {
@@ -686,7 +953,7 @@ impl Check for C12Check {
                                     eprintln!("{} | {:?} | {}\n   -> {:?}", seq_text(ord), sc.kind, render_hist(&sc.hist), obs.trace.iter().map(|o| o.short()).collect::<Vec<_>>());
                                 }
                                 let hold = sc.hold_through;
-                                let mut j = Judge { out: &mut out, table: &table, cfg: &cfg, mode, leader, timeout };
+                                let mut j = Judge { out: &mut out, table: &table, cfg: &cfg, mode, leader, timeout, fam: "" };
                                 // the structural class only explains failures of the canonical typing
                                 let before = j.out.violations.len();
                                 j.judge(si, ord, sc, &obs, if hold { &[] } else { &shadow }, if hold { &[] } else { &modded });
@@ -713,13 +980,17 @@ impl Check for C12Check {
         out
     }
     fn rule(&self) -> String {
-        "case = 12 generated defseq tables (2-4 sequences of 1-4 elements over keys a-f: plain keys, S-/C-/A- chorded keys and groups, O-(..) groups of 2-6 keys; about a third deliberately derived from another sequence of the table as prefix / extension / sub- or super-group) judged by the parser-half oracle; the first accepted table is then typed under 2 of the 8 (input mode x leader) combinations (all 8 for the fixed tables that are the same for every seed (38 cases): the guide's examples, the repository's own overlap table, the known-finding witnesses): every sequence in every permitted ordering (capped at 8 quick / 24 thorough per sequence), with overlap groups released before the next key and held through it; every proper press-prefix followed by a key that occurs in no sequence; one inter-press position per ordering stretched to T-1 / T / T+1. Non-trivial = table reached the parser; distinct = (accept/reject, table shape) and (mode, leader, table shape) typed.".into()
+        "two case families. General family (5 of 6 generated cases): case = 12 generated defseq tables (2-4 sequences of 1-4 elements over keys a-f: plain keys, S-/C-/A- chorded keys and groups, O-(..) groups of 2-6 keys; about a third deliberately derived from another sequence of the table as prefix / extension / sub- or super-group) judged by the parser-half oracle; the first accepted table is then typed under 2 of the 8 (input mode x leader) combinations (all 8 for the fixed tables that are the same for every seed (38 cases): the guide's examples, the repository's own overlap table, the known-finding witnesses): every sequence in every permitted ordering (capped at 8 quick / 24 thorough per sequence), with overlap groups released before the next key and held through it; every proper press-prefix followed by a key that occurs in no sequence; one inter-press position per ordering stretched to T-1 / T / T+1. Modifier family (every 6th generated case + 13 fixed tables typed under all 8 combinations x modcancel absent/yes/no): case = 8 generated tables of 1-4 sequences of 1-4(5) members over plain keys a-g, bare modifier keys (lsft lctl lalt lmet ralt, rarely rsft rctl rmet; more likely as first member) and S-/C-/A- chorded keys and groups, two fifths derived from another sequence (chord respelled with the bare key and back, a modifier put in front, same beginning / extension, modifiers dropped), all judged by the parser-half oracle; the first accepted table is typed under 2 (mode, leader) combinations with sequence-backtrack-modcancel absent / yes and once more with no: every sequence canonically (bare modifier tapped), with every bare modifier kept down to the end, with single bare modifiers kept down over the next 1-2 members, with the modifier of one chorded member released only after the next member, with an unrelated modifier pressed before the leader and released after the first press / a random press / everything, and both together; each typing the documented rule decides is run complete, cut after every (first two typings) or one random press + foreign key, and with one position stretched to T-1 / T / T+1; typings that match nothing under the configured setting must fire no virtual key. Non-trivial = table reached the parser; distinct = (accept/reject, table shape) and (mode, leader, [modcancel,] table shape) typed.".into()
     }
     fn assumptions(&self) -> Vec<String> {
         vec![
-            "canonical typing: a plain key is tapped, S-k holds the modifier around a tap of k, S-(a b) holds it around taps of a and b, O-(..) keys are all pressed before any is released; modifiers used are the left ones; bare modifier keys are not generated as sequence members".into(),
+            "canonical typing: a plain key is tapped, S-k holds the modifier around a tap of k, S-(a b) holds it around taps of a and b, O-(..) keys are all pressed before any is released; chords are typed with the left-hand modifier keys; bare modifier keys are members only in the modifier family, which has no O-(..) groups".into(),
+            "modifier family, matching rule (guide, sequence-backtrack-modcancel, and the design note it links): a press is seen with the modifier classes down at that moment (a modifier key counts itself); a member written bare (a, lsft) matches a press seen without modifiers, a chorded member matches a press seen with exactly its modifiers; with modcancel yes (default) a press may also be read without any of its modifiers (all or none), with no it may not. So (lsft a b) fires with yes whether lsft is tapped or held and never with no; a first key typed under an unrelated held modifier matches with yes and not with no".into(),
+            "modifier family, what is judged: a typing is expected to fire its sequence only if no other sequence matches (with modifiers cancelled) the typed presses, a proper beginning of them, a run of them starting later (the matcher may drop keys from the front), or begins with all of them, and if no press that must be read without modifiers precedes one that must be read with them while some sequence lists the earlier press as seen at that position (the order in which readings are tried is not documented); everything else is counted under mf_skipped:* and not typed. A typing that matches nothing is judged only for 'no virtual key fires'".into(),
+            "modifier family: the unrelated modifier is one whose class the typed sequence does not use; with sequence-always-on it is itself a first key, so it is only used when no sequence of the table begins with that key".into(),
+            "a member rsft / rctl / rmet is expected to match presses of that key like any other member; the unchanged tree never matches it (known finding, own signature class, applied only to typings that press such a member)".into(),
             "prefix relation of oracle (a) follows the documented matching: a plain sequence matches its presses in order regardless of releases, an O-(..) group only matches presses that overlap; two sequences that complete on the same press (e.g. (a b) and (O-(a b))) are not a conflict (the repository's own tests define the overlap variant to win)".into(),
-            "tables with chorded members (S-a, S-(a b), ...) are typed with sequence-backtrack-modcancel no: with the default, a key typed under a held modifier may also match a sequence listing it without the modifier, which the guide does not specify precisely enough to model; tables of plain keys and O-(..) groups run with the default".into(),
+            "general family: tables with chorded members (S-a, S-(a b), ...) are typed with sequence-backtrack-modcancel no (how modifier cancelling interacts with O-(..) groups is not documented); tables of plain keys and O-(..) groups run with the default. Chorded members under the default / yes are covered by the modifier family".into(),
             "orderings for which oracle (a) reports a prefix conflict are not typed (their outcome is ambiguous by that finding)".into(),
             "sequence-always-on is judged only with hidden-delay-type and visible-backspaced: with hidden-suppressed every key that is not part of a sequence, including the witness keys, is swallowed by design".into(),
             "whether sequence mode has ended is read from the OS stream where it shows and from the public sequence_state.is_active() between ticks otherwise (visible-backspaced shows keys either way)".into(),
@@ -741,6 +1012,26 @@ impl Check for C12Check {
             ("boundary_T", 200),
             ("boundary_T_plus_1", 200),
             ("probe_output_normally", 5000),
+            // modifier family: every new dimension was exercised and came out as the rule says
+            ("mf_tables_typed", 300),
+            ("mf_configs_modcancel_default", 300),
+            ("mf_configs_modcancel_yes", 100),
+            ("mf_configs_modcancel_no", 300),
+            ("mf_fired_once:bare-modifier-first-tapped:modcancel-yes", 500),
+            ("mf_fired_once:bare-modifier-first-held:modcancel-yes", 300),
+            ("mf_fired_once:bare-modifier-later-tapped:modcancel-yes", 200),
+            ("mf_fired_once:bare-modifier-later-held:modcancel-yes", 100),
+            ("mf_fired_once:unrelated-modifier-held-on-first-key:modcancel-yes", 2000),
+            ("mf_fired_once:chord-modifier-released-late:modcancel-yes", 300),
+            ("mf_unmatchable_fired_nothing:chord-modifier-released-late:modcancel-no", 100),
+            ("mf_fired_once:chorded-members:modcancel-yes", 500),
+            ("mf_fired_once:chorded-members:modcancel-no", 200),
+            ("mf_failed_cleanly:bare-modifier-first-tapped", 1500),
+            ("mf_failed_cleanly:bare-modifier-first-held", 800),
+            ("mf_failed_cleanly:unrelated-modifier-held-on-first-key", 3000),
+            ("mf_unmatchable_fired_nothing:bare-modifier-first-tapped:modcancel-no", 150),
+            ("mf_unmatchable_fired_nothing:bare-modifier-first-held:modcancel-no", 200),
+            ("mf_unmatchable_fired_nothing:unrelated-modifier-held-on-first-key:modcancel-no", 1500),
         ]
     }
 }
